@@ -58,6 +58,26 @@ class LocalLink:
     def remove_controller(self, controller: controller.Controller):
         self.controllers.remove(controller)
 
+        # The links to the controller that left are lost: the other ends see a
+        # connection timeout (they could not reach it any more anyway).
+        for connection in controller.le_connections.values():
+            for peer in self.controllers:
+                peer_connection = peer.le_connections.get(connection.self_address)
+                if (
+                    peer_connection
+                    and peer_connection.self_address == connection.peer_address
+                ):
+                    peer.on_le_disconnected(
+                        peer_connection, hci.HCI_ErrorCode.CONNECTION_TIMEOUT_ERROR
+                    )
+        for connection in controller.classic_connections.values():
+            if peer := self.find_classic_controller(connection.peer_address):
+                if controller.public_address in peer.classic_connections:
+                    peer.on_classic_disconnected(
+                        controller.public_address,
+                        hci.HCI_ErrorCode.CONNECTION_TIMEOUT_ERROR,
+                    )
+
     def find_le_controller(self, address: hci.Address) -> controller.Controller | None:
         for controller in self.controllers:
             for connection in controller.le_connections.values():
